@@ -154,6 +154,16 @@ type scopeGen struct {
 	tag   int
 	nfunc int
 	kinds map[string]int
+	loops map[string]int // names that are counters of an enclosing three-clause loop: only increased (the program must terminate)
+}
+
+// assign writes `nm = e`, or an increment when nm may be the counter of an enclosing loop.
+func (s *scopeGen) assign(ind int, nm, e string) {
+	if s.loops[nm] > 0 {
+		s.line(ind, "%s += %d", nm, s.r.intn(5)+1)
+		return
+	}
+	s.line(ind, "%s = %s", nm, e)
 }
 
 var scopeNames = []string{"x", "y", "z"}
@@ -190,7 +200,7 @@ func (s *scopeGen) stmts(ind, depth, n int, declared map[string]bool) {
 		case x < 22:
 			// declaration in the current block (Go forbids := of an already-declared name in the same block)
 			if declared[nm] {
-				s.line(ind, "%s = %s", nm, s.expr())
+				s.assign(ind, nm, s.expr())
 				continue
 			}
 			declared[nm] = true
@@ -209,7 +219,7 @@ func (s *scopeGen) stmts(ind, depth, n int, declared map[string]bool) {
 		case x < 40:
 			switch s.r.intn(3) {
 			case 0:
-				s.line(ind, "%s = %s", nm, s.expr())
+				s.assign(ind, nm, s.expr())
 			case 1:
 				s.line(ind, "%s += %d", nm, s.r.intn(5)+1)
 			default:
@@ -249,7 +259,12 @@ func (s *scopeGen) stmts(ind, depth, n int, declared map[string]bool) {
 			s.kinds["for"]++
 			v := pick(s.r, append([]string{"i", "i"}, scopeNames...))
 			s.line(ind, "for %s := int(0); %s < %d; %s++ {", v, v, 1+s.r.intn(3), v)
+			if s.loops == nil {
+				s.loops = map[string]int{}
+			}
+			s.loops[v]++
 			s.stmts(ind+1, depth-1, 1+s.r.intn(4), map[string]bool{})
+			s.loops[v]--
 			s.print(ind + 1)
 			s.line(ind, "}")
 		case x < 86:
@@ -294,7 +309,7 @@ func (s *scopeGen) stmts(ind, depth, n int, declared map[string]bool) {
 		default:
 			if s.nfunc > 0 {
 				s.kinds["call"]++
-				s.line(ind, "%s = g%d(%s, %s)", nm, s.r.intn(s.nfunc), s.expr(), s.expr())
+				s.assign(ind, nm, fmt.Sprintf("g%d(%s, %s)", s.r.intn(s.nfunc), s.expr(), s.expr()))
 			}
 		}
 	}
